@@ -138,6 +138,9 @@ func checkC03(r *core.Run) {
 		}
 		pureOfRuntimeState(r, "C03.pure", "the executor (images, lock keys)", append(ex, reachFrom(w, ex, pExecAT)...), nil)
 		r.Floor("C03.pure", 20)
+		// the combined image query of a multi-statement decides the lock keys as well
+		c18Sticky(r, live, "C03.sticky")
+		r.Floor("C03.sticky", 1)
 	}
 	assignTags := func(pkg *packages.Package, as *ast.AssignStmt) []flow.Tag {
 		if isLockKeyStore(pkg.TypesInfo, as, fld) != nil {
